@@ -139,7 +139,10 @@ fn walk_entity_dir(
         } else {
             None
         };
-        if ext.is_some() && SUPPORTED_YAML_EXTS.contains(&ext.unwrap()) {
+        // Only files define entities: a directory whose name happens to end in a YAML extension
+        // is just a directory (with `follow_links` the file type is that of the link target).
+        if entry.file_type().is_file() && ext.is_some() && SUPPORTED_YAML_EXTS.contains(&ext.unwrap())
+        {
             // it's an entity (class or node), process it
             let abspath = to_lexical_absolute(entry.path())?;
             let relpath = abspath.strip_prefix(&entity_root)?;
